@@ -169,8 +169,6 @@ theorem C04_restore_versions_byte_for_byte (s : St) (ps : List Path) (blocked : 
     (p, a) ∈ s.restoreItems (s.targetEnts ps) ∧ ∃ o, s.cache a = some o ∧ o.b = b := by
   unfold St.untrackRestore at h
   simp only at h
-  split at h
-  · cases h
   · have h1 := rematerialise_cache s (s.targetEnts ps)
     generalize s.rematerialise (s.targetEnts ps) = res at h h1
     obtain ⟨s1, out⟩ := res
